@@ -198,7 +198,11 @@ func RunHistoryShard(t *testing.T, env *ShardEnv) *ShardReport {
 		}
 		rep.LastSeed = seed
 		sc := GenScenario(env.Prop, seed, env.Tier)
+		t0 := time.Now()
 		w := RunScenario(t, sc)
+		if d := time.Since(t0); d > 2*time.Second {
+			fmt.Fprintf(os.Stderr, "slow run: seed=%d %v ops=%d cfg=%+v\n", seed, d, len(sc.Ops), sc.Cfg)
+		}
 		rep.Evaluations++
 		rep.absorb(w.st)
 		if nontrivial(env.Prop, w) {
